@@ -40,7 +40,9 @@ func (w *replayWindow) check(seq uint48) bool {
 
 	// 情况2：序列号在窗口左侧 → 拒绝
 	diff := w.right - seq
-	if diff >= uint48(w.size) {
+	// 位图只有 64 位：配置的窗口大于 64 时，超出位图范围的序列号无法记录是否已收到，
+	// 必须按窗口外处理，否则同一序列号可被重复接受。
+	if diff >= uint48(w.size) || diff >= 64 {
 		return false
 	}
 
